@@ -169,7 +169,6 @@ def lowerStr (s : String) : String := String.ofList (s.toList.map Char.toLower)
 /-- `dict(x)` -/
 def pyDictCopy : PyVal → PyM PyVal
   | .dict kvs => pure (.dict kvs)
-  | .obj _ => raise "TypeError" "object is not iterable"
   | .none => raise "TypeError" "object is not iterable"
   | .int _ => raise "TypeError" "object is not iterable"
   | _ => raise "Unsupported" "dict() of this value"
@@ -188,11 +187,12 @@ def pyDictPop (d k : PyVal) : PyM (PyVal × PyVal) :=
 
 /-- explicit keyword arguments followed by `**extra` -/
 def kwMerge (explicit : List (String × PyVal)) (extra : PyVal) : PyM (List (String × PyVal)) :=
-  match extra with
-  | .dict kvs =>
+  match explicit, extra with
+  | [], .dict kvs => pure kvs
+  | _, .dict kvs =>
     if kvs.any (fun kv => explicit.any (fun e => e.1 == kv.1)) then raise "TypeError" "got multiple values for keyword argument"
     else pure (explicit ++ kvs)
-  | _ => raise "TypeError" "argument after ** must be a mapping"
+  | _, _ => raise "TypeError" "argument after ** must be a mapping"
 
 /-- methods of built-in values -/
 def builtinMethod (recv : PyVal) (m : String) (args : List PyVal) (kw : List (String × PyVal)) : PyM PyVal :=
@@ -224,15 +224,20 @@ def mkRaise (cls : String) : PyVal := .tuple [raiseTag, .str cls]
 def scriptSet (sc : List (String × List PyVal)) (label : String) (rest : List PyVal) : List (String × List PyVal) :=
   sc.map (fun e => if e.1 == label then (label, rest) else e)
 
+/-- the class a script entry raises, if it is the marker -/
+def raiseCls : PyVal → Option String
+  | .tuple [.obj "<raise>", .str cls] => some cls
+  | _ => Option.none
+
 /-- the answer to event number `k` of callee `label` -/
 def nextResult (label : String) (k : Nat) : PyM2 PyVal := do
   let s ← get
   match s.script.lookup label with
   | some (r :: rest) =>
     set { s with script := scriptSet s.script label rest }
-    match r with
-    | .tuple [.obj "<raise>", .str cls] => throw ⟨cls, "scripted"⟩
-    | _ => pure r
+    match raiseCls r with
+    | some cls => throw ⟨cls, "scripted"⟩
+    | Option.none => pure r
   | _ => pure (.obj ("#" ++ toString k))
 
 /-- `f(*args, **kw)` -/
@@ -303,6 +308,14 @@ def symSetItem (x key v : PyVal) : PyM2 PyVal :=
     | .tuple (.str "<slice>" :: _) => throw ⟨"Unsupported", "slice assignment other than x[:] = v"⟩
     | _ => (pySetItem x key v : PyM PyVal)
   | _ => (pySetItem x key v : PyM PyVal)
+
+/-- `x.a = v` on an opaque object: an event (the store is not reflected by later reads: the translator rejects
+nothing here, both sides of the comparison behave alike) -/
+def symSetAttr (x : PyVal) (a : String) (v : PyVal) : PyM2 Unit :=
+  match x with
+  | .obj _ => emit (.tuple [.str "setattr", x, .str a, v])
+  | .tuple (.obj _ :: _) => throw ⟨"Unsupported", "attribute assignment on a closure / instance value"⟩
+  | _ => throw ⟨"AttributeError", a⟩
 
 /-- `x.append(v)` as the new value of `x` -/
 def symAppend (w : World) (x v : PyVal) : PyM2 PyVal :=
